@@ -222,10 +222,20 @@ fn seg_ending_at_boundary(ctx: &mut Ctx, buf: BufKind) -> Option<Vec<u8>> {
         }
         _ => stream::any_stream(rng),
     };
-    // cut at the first / a random boundary event
-    let mut d = new_decoder(buf);
-    let mut log = Log::new();
-    feed(d.as_mut(), &s, 0, &mut log);
+    // cut at the first / a random boundary event (the generator runs the decoder itself: a panic there is
+    // C05's business, the segment is simply skipped here)
+    let log = match crate::core::guarded(|| {
+        let mut d = new_decoder(buf);
+        let mut log = Log::new();
+        feed(d.as_mut(), &s, 0, &mut log);
+        log
+    }) {
+        Ok(l) => l,
+        Err(_) => {
+            ctx.bump("generator-saw-panic(see C05)");
+            return None;
+        }
+    };
     let bpos: Vec<usize> = log.iter().filter(|(_, e)| is_boundary(e)).map(|(p, _)| *p).collect();
     if bpos.is_empty() {
         return None;
